@@ -1,7 +1,8 @@
 ----------------------------- MODULE Gfx_Trace -----------------------------
 (* Trace validation for C20.  One scenario = one real Vaxis on a fake       *)
 (* console ("reset" gives screen size, cell pixel size and protocol).       *)
-(*   fit     one Resize + CellSize() record: ImageFit!FitOK.                *)
+(*   fit     one Resize + CellSize() record: ImageFit!FitOK (iw x ih = the  *)
+(*           extent of the image's bounds, which start at (ox, oy)).        *)
 (*   mark / bcheck   a block image drawn through a window between two       *)
 (*           frames: changed cells (through RefTerm) must be image cells    *)
 (*           accepted by the window (Clip) and show the source pixels       *)
@@ -168,8 +169,16 @@ StepAll(e) ==
                 ELSE IF e.ev = "resize" THEN [InitGfx(e.rows, e.cols) EXCEPT !.imgs = gt.imgs, !.pl = gt.pl]
                 ELSE gt
 
+(* context of the record, for the rejection signature only (no part of any verdict): the source *)
+(* image is a crop that kept its coordinates (bounds not starting at (0,0)); the frame shows an   *)
+(* image whose latest encoding was requested right after another one                             *)
+ContextOf(e) ==
+  IF "ctx" \in DOMAIN e THEN e.ctx
+  ELSE IF "ox" \in DOMAIN e /\ (e.ox # 0 \/ e.oy # 0) THEN "origin"
+  ELSE ""
+Context(e) == IF ContextOf(e) = "" THEN "" ELSE ":" \o ContextOf(e)
 Reject(e, why, det) ==
-  PrintT("REJECT " \o ToJson([scn |-> e.scn, line |-> l, n |-> e.n, kind |-> e.ev, proto |-> cfg.proto, why |-> why, det |-> det]))
+  PrintT("REJECT " \o ToJson([scn |-> e.scn, line |-> l, n |-> e.n, kind |-> e.ev, proto |-> cfg.proto, why |-> why, det |-> det \o Context(e)]))
 
 Next ==
   /\ l <= Len(Trace)
@@ -188,7 +197,8 @@ Next ==
         /\ UNCHANGED <<t, base, gt, shown, bind, fs, cfg>>
      ELSE IF e.ev = "panic" THEN
         /\ failed' = TRUE
-        /\ PrintT("REJECT " \o ToJson([scn |-> e.scn, line |-> l, n |-> -1, kind |-> e.what, proto |-> cfg.proto, why |-> "panic", det |-> ""]))
+        /\ PrintT("REJECT " \o ToJson([scn |-> e.scn, line |-> l, n |-> (IF "n" \in DOMAIN e THEN e.n ELSE -1), kind |-> e.what, proto |-> cfg.proto,
+                                        why |-> "panic", det |-> ContextOf(e)]))
         /\ UNCHANGED <<t, base, gt, shown, bind, fs, cfg>>
      ELSE IF e.ev = "fit" THEN
         /\ UNCHANGED <<t, base, gt, shown, bind, fs, cfg, failed>>
